@@ -162,10 +162,31 @@ def pure_expr(e, fns=None, is_new_helper=None, depth=0):
             tgt = (fns or {}).get(cp)
             if tgt is not None and 'hir' in tgt and is_new_helper is not None and is_new_helper(cp) and depth < 2 and pure_expr(tgt['hir'], fns, is_new_helper, depth + 1):
                 continue
+            if tgt is not None and 'hir' in tgt and depth < 2 and not any('&mut' in (t_ or '') for t_ in (tgt.get('inputs') or [])) and _accessor_body(tgt['hir']):
+                continue  # a crate function that only reads a field of its argument (an accessor), whoever wrote it
             if k == 'MethodCall' and n.get('name') in _PURE_METHODS and not (tgt is not None):
                 continue
             return False
     return True
+
+
+def _accessor_body(b):
+    """the body is a chain of field reads, derefs, borrows and copies of one local"""
+    b = peel(b)
+    while isinstance(b, dict):
+        k = b.get('k')
+        if k == 'Block' and not b.get('stmts') and b.get('expr') is not None:
+            b = peel(b['expr'])
+        elif k in ('Field', 'AddrOf') or (k == 'Unary' and b.get('op') == 'Deref'):
+            b = peel(b['e'])
+        elif k == 'MethodCall' and b.get('name') in ('clone', 'as_ref', 'as_str', 'borrow', 'get', 'len', 'is_empty', 'is_some', 'is_none') and len(call_args(b)) == 1 \
+                and not norm_path(callee_path(b) or '').startswith(('crate::',)) and (callee_path(b) or '').startswith(('std::', 'core::', 'alloc::')):
+            b = peel(b['recv'])
+        elif k == 'Local':
+            return True
+        else:
+            return False
+    return False
 
 
 def log_stmt(e, fns=None, is_new_helper=None):
